@@ -34,6 +34,42 @@ class Mapping(collections.abc.MutableMapping):
         return len(self.d)
 
 
+class Expiring(Mapping):
+    """A caller-supplied cache whose entries expire at a moment of its own choosing (a TTL cache seen from the
+    wrapper): an entry disappears right after it was reported present ('contains') or right after it was read
+    ('getitem').  The evictions are reported to the driver, which logs them after the call in progress."""
+    def __init__(self, when, pending):
+        super().__init__()
+        self.when = when
+        self.pending = pending
+
+    def _expire(self, k):
+        if k in self.d:
+            del self.d[k]
+            self.pending.append(k)
+
+    def __contains__(self, k):
+        r = k in self.d
+        if r and self.when == 'contains':
+            self._expire(k)
+        return r
+
+    def __getitem__(self, k):
+        v = self.d[k]
+        if self.when == 'getitem':
+            self._expire(k)
+        return v
+
+    def get(self, k, default=None):
+        try:
+            v = self.d[k]
+        except KeyError:
+            return default
+        if self.when == 'getitem':
+            self._expire(k)
+        return v
+
+
 def run(ctl, A, sc):
     asyncio.set_event_loop_policy(rt.VPolicy())
     mode = sc['mode']
@@ -59,7 +95,8 @@ def run(ctl, A, sc):
         loop = rt.VLoop('L1')
         asyncio.set_event_loop(loop)
         if mode == 'ops':
-            store = Mapping()
+            pending = []
+            store = Mapping() if sc.get('expire') in (None, 'never') else Expiring(sc['expire'], pending)
             if sc.get('lru', 0) > 0:
                 from lru import LRU
                 store = LRU(sc['lru'])
@@ -71,8 +108,17 @@ def run(ctl, A, sc):
 
         async def call(j, args, kw):
             cur[0] = j
-            v = await wrapped(*args, **kw)
-            ctl.log('CallEnd', j=j, inv=-2 if (v is None and sc.get('retnone')) else getattr(v, 'j', -1))
+            try:
+                v = await wrapped(*args, **kw)
+            except asyncio.CancelledError:
+                raise
+            except Exception as e:       # the wrapped function never raises here: not an outcome of this call
+                ctl.log('CallEnd', j=j, inv=-3, exctype=type(e).__name__)
+            else:
+                ctl.log('CallEnd', j=j, inv=-2 if (v is None and sc.get('retnone')) else getattr(v, 'j', -1))
+            if mode == 'ops':
+                while pending:           # entries that expired during this call
+                    ctl.log('Evict', k=pending.pop(0)[0][0])
 
         table = CONC2 if sc.get('conc') == 2 else CONC
 
